@@ -26,6 +26,9 @@ import (
 type tape struct {
 	d []uint32
 	i int
+	// hostile is set by the bytes check only: builders may then exceed limits that encoders do not enforce
+	// (condition nesting), which gives encodings a decoder has to refuse.
+	hostile bool
 }
 
 func newTape(d []uint32) *tape { return &tape{d: d} }
